@@ -103,16 +103,16 @@ func RefForkIDScript(s txgen.TxSpec, idx uint32, ht uint32, scriptCode []byte, a
 	}
 	in := s.Ins[idx]
 	var p []byte
-	p = append(p, le32(s.Version)...)  // 1
-	p = append(p, hashPrevouts...)     // 2
-	p = append(p, hashSequence...)     // 3
-	p = append(p, outpoint(in)...)     // 4
+	p = append(p, le32(s.Version)...)     // 1
+	p = append(p, hashPrevouts...)        // 2
+	p = append(p, hashSequence...)        // 3
+	p = append(p, outpoint(in)...)        // 4
 	p = append(p, withLen(scriptCode)...) // 5
-	p = append(p, le64(amount)...)     // 6
-	p = append(p, le32(in.Seq)...)     // 7
-	p = append(p, hashOutputs...)      // 8
-	p = append(p, le32(s.Lock)...)     // 9
-	p = append(p, le32(ht)...)         // 10
+	p = append(p, le64(amount)...)        // 6
+	p = append(p, le32(in.Seq)...)        // 7
+	p = append(p, hashOutputs...)         // 8
+	p = append(p, le32(s.Lock)...)        // 9
+	p = append(p, le32(ht)...)            // 10
 	return p, ClsOK
 }
 
